@@ -560,6 +560,7 @@ def run(tier, R):
         "assumptions": [
             "sessions run against real loops and a real pty: the next script step is injected from an idle callback (chained alarms for the screen without event-loop support); a 4 s watchdog ends hung sessions",
             "signals are delivered synchronously (the resize step calls the SIGWINCH handler directly)",
+            "real time: a split-escape session whose two halves were written more than 60 ms apart (half of urwid's 125 ms escape time-out) is counted as inconclusive, not judged",
             "terminal modes are read off the captured output with mc/refs/vt_ref.py; the output file is fully buffered: only flushed bytes count as having reached the terminal",
         ],
     }
